@@ -1,4 +1,5 @@
 import MwVerif.Driver.C15
+import MwVerif.Driver.Qs
 
 open MwVerif.Driver
 
@@ -7,4 +8,5 @@ def main (args : List String) : IO UInt32 := do
   let stdout ← IO.getStdout
   match args with
   | ["c15"] => loop stdin stdout C15.step; return 0
+  | ["qs"] => Qs.loop stdin stdout MwVerif.Qs.init; return 0
   | _ => IO.eprintln "usage: driver <model>"; return 2
